@@ -123,6 +123,7 @@ type Exec struct {
 	constCache   map[*ssa.Const]Value
 	pools        map[*Cell][]Value
 	condWaiters  map[*Cell][]*gor
+	abstracted   bool // this path used an over-approximating model
 	evl          *eventLogT
 	hashInjective bool
 	cacheHits    int
